@@ -28,6 +28,18 @@ type c18Case struct {
 	ProdUS   []int  `json:"produs"` // producer: sleep between chunks, microseconds (cyclic)
 	Chunks   []int  `json:"chunks"`
 	Procs    int    `json:"procs"`
+	Comment  int    `json:"comment"` // parser configuration: 0 default, 1 the zero Config{}, 2 ';' as comment character
+	LongLine int    `json:"longline"` // > 0: a note line of that many bytes is inserted after the first heading
+}
+
+func (c c18Case) config() parser.Config {
+	switch c.Comment {
+	case 1:
+		return parser.Config{}
+	case 2:
+		return parser.Config{CommentChar: ';'}
+	}
+	return parser.NewDefaultConfig()
 }
 
 // vSlowReader wraps a reader with drawn delays/yields between reads.
@@ -41,6 +53,9 @@ func (s *vSlowReader) Read(p []byte) (int, error) {
 	if len(s.delays) > 0 {
 		d := s.delays[s.i%len(s.delays)]
 		s.i++
+		if s.i > 300 {
+			d = 0 // bound the producer's total delay (at most 300 sleeps of <= 200 us)
+		}
 		if d > 0 {
 			time.Sleep(time.Duration(d) * time.Microsecond)
 		} else {
@@ -80,8 +95,33 @@ func c18GoroutineDump() string {
 	return string(buf[:n])
 }
 
+// c18ProducerParked: some goroutine of the dump is inside the channel parser AND parked in a channel send.
+func c18ProducerParked(dump string) bool {
+	for _, g := range strings.Split(dump, "\n\n") {
+		if strings.Contains(g, "[chan send") && strings.Contains(g, "parser.Parser.Parse") {
+			return true
+		}
+	}
+	return false
+}
+
 func checkC18(c c18Case, ctx *vCtx) *vFailure {
 	text := c.Doc.Render()
+	if c.LongLine > 0 {
+		if i := strings.Index(text, "\n"); i >= 0 {
+			text = text[:i+1] + "  # " + strings.Repeat("n", c.LongLine-4) + "\n" + text[i+1:]
+		}
+		ctx.Labelf("long-line=%d", c.LongLine)
+	}
+	cfg := c.config()
+	ctx.Labelf("config=%d", c.Comment)
+	if len(text) > 4096 {
+		// keep the producer's total delay bounded on big inputs: yields only, no tiny chunks
+		c.ProdUS = nil
+		if len(c.Chunks) > 0 {
+			c.Chunks = []int{4096, 1000}
+		}
+	}
 	mkReader := func() io.Reader {
 		switch c.Input {
 		case "failing-reader":
@@ -102,9 +142,9 @@ func checkC18(c c18Case, ctx *vCtx) *vFailure {
 		var err error
 		switch c.Input {
 		case "missing-file":
-			err = parser.ParseFileCallback(missing, parser.NewDefaultConfig(), func(n *shared.ParserNode, e error) (bool, error) { return e != nil, e })
+			err = parser.ParseFileCallback(missing, cfg, func(n *shared.ParserNode, e error) (bool, error) { return e != nil, e })
 		case "file":
-			err = parser.ParseFileCallback(filePath, parser.NewDefaultConfig(), func(n *shared.ParserNode, e error) (bool, error) {
+			err = parser.ParseFileCallback(filePath, cfg, func(n *shared.ParserNode, e error) (bool, error) {
 				if e != nil {
 					return true, e
 				}
@@ -112,7 +152,13 @@ func checkC18(c c18Case, ctx *vCtx) *vFailure {
 				return false, nil
 			})
 		default:
-			err = vParseStreamStop(mkReader(), &recs)
+			err = parser.ParseStreamCallback(mkReader(), cfg, func(n *shared.ParserNode, e error) (bool, error) {
+				if e != nil {
+					return true, e
+				}
+				recs = append(recs, vGotFromNode(n))
+				return false, nil
+			})
 		}
 		for _, r := range recs {
 			want = append(want, c18Event{Kind: "node", Rec: r})
@@ -135,7 +181,7 @@ func checkC18(c c18Case, ctx *vCtx) *vFailure {
 	old := runtime.GOMAXPROCS(c.Procs)
 	defer runtime.GOMAXPROCS(old)
 
-	p := parser.NewParser(parser.NewDefaultConfig())
+	p := parser.NewParser(cfg)
 	exited := make(chan struct{})
 	go func() {
 		defer close(exited)
@@ -152,7 +198,7 @@ func checkC18(c c18Case, ctx *vCtx) *vFailure {
 	// whatever happens below, let the producer finish afterwards so that no
 	// goroutine of this case survives into the next one
 	defer func() {
-		deadline := time.After(2 * time.Second)
+		deadline := time.After(10 * time.Second)
 		for {
 			select {
 			case <-exited:
@@ -167,7 +213,7 @@ func checkC18(c c18Case, ctx *vCtx) *vFailure {
 	}()
 	var got []c18Event
 	step := 0
-	stall := time.NewTimer(3 * time.Second)
+	stall := time.NewTimer(15 * time.Second)
 	defer stall.Stop()
 	finished := false
 	stalled := false
@@ -189,7 +235,7 @@ func checkC18(c c18Case, ctx *vCtx) *vFailure {
 			default:
 			}
 		}
-		stall.Reset(3 * time.Second)
+		stall.Reset(15 * time.Second)
 		select {
 		case n := <-p.Nodes:
 			got = append(got, c18Event{Kind: "node", Rec: vGotFromNode(n)})
@@ -217,10 +263,10 @@ func checkC18(c c18Case, ctx *vCtx) *vFailure {
 			return vFailSig("C18/"+c.Input+"/no-done", "policy %s on %s: the producer goroutine has exited but never signalled completion; a consumer that keeps receiving until Done waits forever. Received so far: %s; expected %s", c.Policy, c.Input, c18Fmt(got), c18Fmt(want))
 		default:
 			dump := c18GoroutineDump()
-			if strings.Contains(dump, "chan send") && strings.Contains(dump, "parser.Parser.ParseStream") {
-				return vFailf("policy %s: nothing arrives for 3 s while the consumer is receiving, and the producer is parked in a channel send. Received: %s\n%s", c.Policy, c18Fmt(got), vTrunc(dump, 3000))
+			if c18ProducerParked(dump) {
+				return vFailf("policy %s: nothing arrives for 15 s while the consumer is receiving, and the producer is parked in a channel send. Received: %s\n%s", c.Policy, c18Fmt(got), vTrunc(dump, 3000))
 			}
-			vFault("C18: consumer stalled for 3 s, producer still running (inconclusive)\n%s", vTrunc(dump, 2000))
+			vFault("C18: consumer stalled for 15 s, producer still running (inconclusive)\n%s", vTrunc(dump, 2000))
 		}
 	}
 	// the received sequence
@@ -244,9 +290,9 @@ func checkC18(c c18Case, ctx *vCtx) *vFailure {
 	if c.Policy == "drain" {
 		select {
 		case <-exited:
-		case <-time.After(3 * time.Second):
+		case <-time.After(15 * time.Second):
 			dump := c18GoroutineDump()
-			if strings.Contains(dump, "chan send") && strings.Contains(dump, "parser.Parser.Parse") {
+			if c18ProducerParked(dump) {
 				return vFailf("after the consumer received Done the producer goroutine is still parked in a channel send:\n%s", vTrunc(dump, 3000))
 			}
 			vFault("C18: producer did not exit within 3 s after Done (inconclusive)\n%s", vTrunc(dump, 2000))
@@ -255,8 +301,8 @@ func checkC18(c c18Case, ctx *vCtx) *vFailure {
 		// documented loop that ended with Done: the producer has nothing left to send
 		select {
 		case <-exited:
-		case <-time.After(3 * time.Second):
-			vFault("C18: producer did not exit within 3 s after Done (inconclusive)")
+		case <-time.After(15 * time.Second):
+			vFault("C18: producer did not exit within 15 s after Done (inconclusive)")
 		}
 	}
 	return nil
@@ -305,6 +351,10 @@ func genC18(t *rapid.T) c18Case {
 		}
 	}
 	c.Doc = d
+	c.Comment = []int{0, 0, 0, 1, 2}[rapid.IntRange(0, 4).Draw(t, "config")]
+	if rapid.IntRange(0, 9).Draw(t, "longline") == 0 {
+		c.LongLine = []int{4096, 8192, 65535, 65536, 70000, 100000, 140000}[rapid.IntRange(0, 6).Draw(t, "longlinen")]
+	}
 	c.Yields = rapid.SliceOfN(rapid.IntRange(0, 3), 0, 4).Draw(t, "yields")
 	c.SleepsUS = rapid.SliceOfN(rapid.SampledFrom([]int{0, 0, 0, 1, 20, 200}), 0, 4).Draw(t, "sleeps")
 	c.ProdUS = rapid.SliceOfN(rapid.SampledFrom([]int{0, 0, 1, 50, 200}), 0, 4).Draw(t, "produs")
@@ -318,6 +368,6 @@ func init() { vRegister("C18", "c18.schedules", checkC18) }
 
 func TestVerifC18Schedules(t *testing.T) {
 	vRapid(t, "C18", "c18.schedules",
-		"inputs {valid files, files with 1-3 malformed lines, empty / comment-only, reader failing at a drawn offset, missing file and real file through ParseFile} x consumer policy {documented loop: stop at first error or Done; drain: keep receiving until Done} x drawn schedule (Gosched calls and 0-200 us sleeps before each receive, producer slowed by a reader with drawn delays and chunking, GOMAXPROCS in {1,2,16}), built with the race detector; differential against the callback parser stopping at its first error; after a drain the producer goroutine must have exited; non-trivial = the input has an error or >=2 records",
+		"parser configurations {default, zero Config, ';' comments} x inputs {valid files, files with 1-3 malformed lines, files with a line of 4 KiB..140 KiB, empty / comment-only, reader failing at a drawn offset, missing file and real file through ParseFile} x consumer policy {documented loop: stop at first error or Done; drain: keep receiving until Done} x drawn schedule (Gosched calls and 0-200 us sleeps before each receive, producer slowed by a reader with drawn delays and chunking, GOMAXPROCS in {1,2,16}), built with the race detector; differential against the callback parser stopping at its first error; after a drain the producer goroutine must have exited; non-trivial = the input has an error or >=2 records",
 		vBudget(4800, 160000), genC18, checkC18)
 }
